@@ -83,6 +83,8 @@ struct ApplyCtx {
 
 // Applies step `i`. Returns the error the call reported (labels that could not be created report kOutOfMemory).
 Error apply_step(BaseEmitter& e, CodeHolder& code, const Program& p, size_t i, ApplyCtx& ctx);
+// Undoes the bookkeeping apply_step() did for a step that reported an error, so that the step can be applied again.
+void undo_failed_step(const Program& p, size_t i, ApplyCtx& ctx);
 // Applies steps [from, to) and stops at the first error when `stop_on_error`. Returns the first error.
 Error apply_range(BaseEmitter& e, CodeHolder& code, const Program& p, size_t from, size_t to, ApplyCtx& ctx, bool stop_on_error);
 
